@@ -334,6 +334,109 @@ func concSearch(args []string) int {
 		}
 		w.emit(&csEv{Op: "coptions", Tr: tr, Total: same, Want: want})
 	}
+	// hot request groups: a few goroutines leave a spin barrier and ask a cold cache the same query at the same moment, under
+	// option sets that differ in one field only (what request coalescing or a coarse key would confuse)
+	{
+		c := getCorpus("mix")
+		variants := []func() database.SearchOptions{
+			func() database.SearchOptions { return database.SearchOptions{Limit: 5} },
+			func() database.SearchOptions {
+				return database.SearchOptions{Limit: 5, ContextBoosts: map[string]float64{"widget": 3, "number": 2.5}}
+			},
+			func() database.SearchOptions { return database.SearchOptions{Limit: 5, PipelineBoost: 3} },
+			func() database.SearchOptions { return database.SearchOptions{Limit: 5, UseNLP: true} },
+			func() database.SearchOptions { return database.SearchOptions{Limit: 2} },
+			func() database.SearchOptions { return database.SearchOptions{Limit: 5, PipelineOnly: true} },
+		}
+		hotQ := []string{"frobnicate widget", "widget number", "delete item"}
+		alone := map[string]int{}
+		for qi, q := range hotQ {
+			for vi, mk := range variants {
+				alone[fmt.Sprint(qi, "/", vi)] = in.answerID(c, toHits(c.db.SearchUniversal(q, mk())))
+			}
+		}
+		mdb := database.VerifNewMonitoredDatabase(c.db, 50, 0)
+		var mu sync.Mutex
+		for it := 0; it < *rounds*70; it++ {
+			mdb.InvalidateCache()
+			qi := r.Intn(len(hotQ))
+			g := 2 + r.Intn(3)
+			vis := make([]int, g)
+			for i := range vis {
+				vis[i] = r.Intn(len(variants))
+			}
+			vis[1] = (vis[0] + 1 + r.Intn(len(variants)-1)) % len(variants) // at least two different option sets
+			evs := make([]*csEv, g)
+			var start int32
+			var wg sync.WaitGroup
+			for i := 0; i < g; i++ {
+				wg.Add(1)
+				go func(i int) {
+					defer wg.Done()
+					ev := &csEv{Op: "csearch", Q: hotQ[qi], Entry: "cached", Alone: alone[fmt.Sprint(qi, "/", vis[i])]}
+					evs[i] = ev
+					o := variants[vis[i]]()
+					for atomic.LoadInt32(&start) == 0 {
+					}
+					defer func() {
+						if rec := recover(); rec != nil {
+							ev.Panic = true
+						}
+					}()
+					ev.Ans = in2(in, &mu, c, mdb.SearchWithOptionsAndCache(hotQ[qi], o))
+				}(i)
+			}
+			atomic.StoreInt32(&start, 1)
+			finished := make(chan struct{})
+			go func() { wg.Wait(); close(finished) }()
+			select {
+			case <-finished:
+			case <-time.After(90 * time.Second):
+				tr++
+				w.emit(&csEv{Op: "chang", Tr: tr, Entry: "simultaneous cached searches did not finish within 90 s"})
+				w.close()
+				fmt.Printf("{\"rounds\": %d, \"events\": %d, \"hang\": true}\n", *rounds, w.n)
+				os.Exit(0)
+			}
+			tr++
+			for _, e := range evs {
+				e.Tr = tr
+				w.emit(e)
+			}
+		}
+	}
+	// first use of a metric series by several goroutines at once: many fresh monitors, a few records each
+	for burst := 0; burst < *rounds*100; burst++ {
+		pm := metrics.NewPerformanceMonitor()
+		g, k := 2+r.Intn(7), 1+r.Intn(3)
+		var wg sync.WaitGroup
+		var start int32
+		for i := 0; i < g; i++ {
+			wg.Add(1)
+			go func(i int) {
+				defer wg.Done()
+				for atomic.LoadInt32(&start) == 0 {
+				}
+				for j := 0; j < k; j++ {
+					pm.RecordSearchOperation(time.Microsecond, 1, true, 5)
+				}
+			}(i)
+		}
+		atomic.StoreInt32(&start, 1)
+		wg.Wait()
+		total, ql := 0, 0
+		for _, m := range pm.GetPerformanceReport().ApplicationMetrics {
+			switch m.Name {
+			case "searches_total":
+				total += int(m.Value)
+			case "query_length_count":
+				ql += int(m.Value)
+			}
+		}
+		tr++
+		w.emit(&csEv{Op: "ctotal", Tr: tr, Total: total, Want: g * k})
+		w.emit(&csEv{Op: "ctotal", Tr: tr, Total: ql, Want: g * k})
+	}
 	// metric bursts: many goroutines record through one monitor at full speed; no increment may be lost
 	for burst := 0; burst < 4; burst++ {
 		pm := metrics.NewPerformanceMonitor()
